@@ -14,7 +14,14 @@ Record hcase := HC {
   hc_call : hcall;
   hc_obs : hobs;
   hc_top : nat;          (* result.depth (0 when an exception was raised) *)
-  hc_print : option hobs (* print_tree lines as (depth, name, []) or its exception *)
+  hc_print : option hobs;(* print_tree lines as (depth, name, []) or its exception *)
+  hc_inv : bool          (* side conditions the harness evaluates on the live objects (see helper.py
+                            `_side_conditions`): input tree, its separators and the path argument
+                            unchanged; result made of new objects of the input's node class whose
+                            parent/children links agree; no attribute value object shared with the
+                            input and the result unaffected by later changes of the input; a second
+                            identical call gives the same result; hyield_tree shows the same node
+                            names as print_tree *)
 }.
 
 (* model against observation: same labels in the same order (= same ordered tree with the same
@@ -70,6 +77,7 @@ Definition check_C14 (c : hcase) : nat :=
                   && agree_print m (hc_print c))) F_DISAGREE
       + flag (negb (prop_C14_at (hc_bin c) (hc_sep c) (hc_tree c) (hc_start c) (hc_call c) (hc_obs c)
                     && prop_C14_top (hc_call c) (hc_obs c) (hc_top c)
-                    && prop_C14_print (hc_bin c) (hc_sep c) (hc_tree c) (hc_start c) (hc_call c) (hc_print c)))
+                    && prop_C14_print (hc_bin c) (hc_sep c) (hc_tree c) (hc_start c) (hc_call c) (hc_print c)
+                    && hc_inv c))
              F_PROPFAIL
   end.
